@@ -3,6 +3,7 @@ import numpy as np
 
 from .. import core, symbols
 from ..translate import etdrk as tr_etdrk
+from ..translate import nonlin as tr_nonlin
 
 ID = "C09"
 PROPS_FILE = "C09"
@@ -11,12 +12,22 @@ RULE = ("correspondence: the linear operator of every conservation-form class at
         "all listed steppers x orders 1-4 x D x odd/even N with white-noise states (3D velocity steppers: divergence-free states), work of the convective terms on band-limited states "
         "(energy for Burgers-type and 3D rotational convection, energy and enstrophy for 2D vorticity convection) vanishes, constant equilibria of reaction/convection steppers are fixed points. "
         "Non-trivial: non-constant random states; distinct by input hash.")
+TRUSTED_EXTRA = ["harness/translate/etdrk.py (stage programs) and harness/translate/nonlin.py (the nonlinear terms whose zero mean is proved for the source text)"]
 ASSUMPTIONS = ["energy/enstrophy neutrality and the mean of the non-conservative/vorticity/rotational forms are checked on the real code only (not proved)",
                "fixed points: growth*dt bounded (dt = 0.1) so that rounding is not amplified"]
 
 
 def translate(ctx):
-    tr_etdrk.run()
+    """Gen/ETDRK.v (stage programs) and Gen/NonlinFuns.v (the nonlinear terms of the source, theorem C09_code_terms_have_zero_mean through
+    Tie/NonlinTie.v); both are always attempted"""
+    errors = []
+    for name, tr in (("etdrk", tr_etdrk), ("nonlin", tr_nonlin)):
+        try:
+            tr.run()
+        except Exception as e:
+            errors.append(f"{name}: {type(e).__name__}: {e}")
+    if errors:
+        raise RuntimeError("; ".join(errors))
 
 
 def _ex():
